@@ -400,4 +400,14 @@ package vm
 // one function, stores the result under that function's own name in a fresh map and restores
 // vm.bytecode - the iterations commute.  (The debug Printf inside the loop is a listing.)
 //@ func New(constants []object.Object, bytecode code.Instructions, functions map[string]environment.UserFunction, env *environment.Environment) (result *VM)
+//@   requires env != nil
+//@   modifies comp(E_byte)
+//@   ensures @C09 new.vm: result != nil && fresh(result) && result.context != nil && result.environment == env && result.stack != nil && result.constants === constants
+//@   trusted the optimizer passes it calls are not under contract yet: that New writes nothing but bytecode bytes and the new machine is assumed
+//@   panics maybe
 //@   maporder listing: every iteration restores vm.bytecode and writes only tmp[name]; the debug line is a listing
+
+//@ func (vm *VM) SetContext(ctx context.Context)
+//@   modifies vm.context
+//@   ensures @C09 setcontext.def: vm.context === ctx
+//@   panics never
